@@ -210,7 +210,7 @@ def run(ctx: Ctx) -> int:
     ctx.melodies = em._BUZZER_MELODIES
     rng = ctx.rng
     cases = [(ops, 8, None) for ops in CORPUS]
-    for _ in range(ctx.n(60, 900)):
+    for _ in range(ctx.n(200, 900)):
         ops = gen_ops(rng)
         while not in_domain(ops):
             ops = gen_ops(rng)
